@@ -34,6 +34,31 @@ struct KHash { int mode; explicit KHash(int m = 0) : mode(m) {}
 struct IHash { int mode; explicit IHash(int m = 0) : mode(m) {}
 	size_t operator()(int a) const { return mode ? 7 : std::hash<int>()(a); } };
 
+// string key/mapped (long enough to defeat SSO), transparent functors for heterogeneous lookup
+static std::string SK(int k) { char b[40]; snprintf(b, sizeof b, "key-with-a-long-prefix-%06d", k + 100000); return b; }
+static std::string SM(int v) { char b[40]; snprintf(b, sizeof b, "val-with-a-long-prefix-%06d", v + 100000); return b; }
+static int SKi(const std::string& s) { return s.size() < 24 ? 0 : atoi(s.c_str() + 23) - 100000; }
+static int SMi(const std::string& s) { return s.size() < 24 ? 0 : atoi(s.c_str() + 23) - 100000; }
+struct SHash { typedef void is_transparent; int mode; explicit SHash(int m = 0) : mode(m) {}
+	size_t operator()(const std::string& a) const { return mode ? 7 : std::hash<std::string>()(a); }
+	size_t operator()(const char* a) const { return mode ? 7 : std::hash<std::string>()(std::string(a)); } };
+struct SEq { typedef void is_transparent;
+	bool operator()(const std::string& a, const std::string& b) const { return a == b; }
+	bool operator()(const char* a, const std::string& b) const { return b == a; }
+	bool operator()(const std::string& a, const char* b) const { return a == b; } };
+// move-only mapped type: any copy would not compile; a moved-from object is marked
+static long g_moLive = 0;
+struct MO { int v; MO() : v(0) { ++g_moLive; } explicit MO(int x) : v(x) { ++g_moLive; } MO(MO&& o) noexcept : v(o.v) { o.v = -777; ++g_moLive; }
+	MO& operator=(MO&& o) noexcept { v = o.v; o.v = -777; return *this; } MO(const MO&) = delete; MO& operator=(const MO&) = delete; ~MO() { --g_moLive; }
+	friend bool operator==(const MO& a, const MO& b) { return a.v == b.v; } friend bool operator<(const MO& a, const MO& b) { return a.v < b.v; } };
+template<int TY> struct Codec;
+template<> struct Codec<0> { typedef int key; typedef int mapped; static const bool copyable = true; static const bool hetero = false;
+	static int K(int k) { return k; } static int M(int v) { return v; } static int ki(int k) { return k; } static int mi(int v) { return v; } };
+template<> struct Codec<1> { typedef std::string key; typedef std::string mapped; static const bool copyable = true; static const bool hetero = true;
+	static std::string K(int k) { return SK(k); } static std::string M(int v) { return SM(v); } static int ki(const std::string& k) { return SKi(k); } static int mi(const std::string& v) { return SMi(v); } };
+template<> struct Codec<2> { typedef int key; typedef MO mapped; static const bool copyable = false; static const bool hetero = false;
+	static int K(int k) { return k; } static MO M(int v) { return MO(v); } static int ki(int k) { return k; } static int mi(const MO& v) { return v.v; } };
+
 // ------------------------------------------------------------------ stateful allocator
 static std::map<void*, int> g_blocks; static bool g_allocErr = false;
 template<class T, bool CCA, bool CMA, bool CS> struct SA {
@@ -67,7 +92,8 @@ template<class T> struct PickAlloc<3, T> { typedef SA<T, true, false, true> type
 template<class T> struct PickAlloc<4, T> { typedef SA<T, false, true, false> type; };
 
 // ------------------------------------------------------------------ container catalogue
-enum Shape { USET, UMAP, UMMAP, OSET, OMSET, OMAP, OMMAP, VEC };
+enum Shape { USET, UMAP, UMMAP, OSET, OMSET, OMAP, OMMAP, VEC, SMAP, SUMAP, MOMAP, MOUMAP };
+typedef std::pair<const std::string, std::string> PSS; typedef std::pair<const int, MO> PIM;
 template<Shape S, bool OPEN, int AK> struct Cont;
 typedef std::pair<const int, int> PII;
 #ifdef IMPL_MOMO
@@ -83,6 +109,10 @@ template<int AK> struct Cont<OMSET, false, AK> { typedef ns::multiset<KI, KLess,
 template<int AK> struct Cont<OMAP, false, AK> { typedef ns::map<int, int, std::less<int>, typename PickAlloc<AK, PII>::type> type; };
 template<int AK> struct Cont<OMMAP, false, AK> { typedef ns::multimap<int, int, std::less<int>, typename PickAlloc<AK, PII>::type> type; };
 template<int AK> struct Cont<VEC, false, AK> { typedef ns::vector<int, typename PickAlloc<AK, int>::type> type; };
+template<int AK> struct Cont<SMAP, false, AK> { typedef ns::map<std::string, std::string, std::less<>, typename PickAlloc<AK, PSS>::type> type; };
+template<int AK> struct Cont<SUMAP, false, AK> { typedef ns::unordered_map<std::string, std::string, SHash, SEq, typename PickAlloc<AK, PSS>::type> type; };
+template<int AK> struct Cont<MOMAP, false, AK> { typedef ns::map<int, MO, std::less<int>, typename PickAlloc<AK, PIM>::type> type; };
+template<int AK> struct Cont<MOUMAP, false, AK> { typedef ns::unordered_map<int, MO, IHash, std::equal_to<int>, typename PickAlloc<AK, PIM>::type> type; };
 static const bool isMomo = true;
 #else
 template<bool OPEN, int AK> struct Cont<USET, OPEN, AK> { typedef std::unordered_set<KI, KHash, KEq, typename PickAlloc<AK, KI>::type> type; };
@@ -93,14 +123,19 @@ template<int AK> struct Cont<OMSET, false, AK> { typedef std::multiset<KI, KLess
 template<int AK> struct Cont<OMAP, false, AK> { typedef std::map<int, int, std::less<int>, typename PickAlloc<AK, PII>::type> type; };
 template<int AK> struct Cont<OMMAP, false, AK> { typedef std::multimap<int, int, std::less<int>, typename PickAlloc<AK, PII>::type> type; };
 template<int AK> struct Cont<VEC, false, AK> { typedef std::vector<int, typename PickAlloc<AK, int>::type> type; };
+template<int AK> struct Cont<SMAP, false, AK> { typedef std::map<std::string, std::string, std::less<>, typename PickAlloc<AK, PSS>::type> type; };
+template<int AK> struct Cont<SUMAP, false, AK> { typedef std::unordered_map<std::string, std::string, SHash, SEq, typename PickAlloc<AK, PSS>::type> type; };
+template<int AK> struct Cont<MOMAP, false, AK> { typedef std::map<int, MO, std::less<int>, typename PickAlloc<AK, PIM>::type> type; };
+template<int AK> struct Cont<MOUMAP, false, AK> { typedef std::unordered_map<int, MO, IHash, std::equal_to<int>, typename PickAlloc<AK, PIM>::type> type; };
 static const bool isMomo = false;
 #endif
 
 template<Shape S> struct ShapeInfo {
-	static const bool isMap = (S == UMAP || S == UMMAP || S == OMAP || S == OMMAP);
+	static const bool isMap = (S == UMAP || S == UMMAP || S == OMAP || S == OMMAP || S == SMAP || S == SUMAP || S == MOMAP || S == MOUMAP);
 	static const bool isMulti = (S == UMMAP || S == OMSET || S == OMMAP);
-	static const bool isOrdered = (S == OSET || S == OMSET || S == OMAP || S == OMMAP);
+	static const bool isOrdered = (S == OSET || S == OMSET || S == OMAP || S == OMMAP || S == SMAP || S == MOMAP);
 	static const bool hasNodes = (S != UMMAP && S != VEC);
+	static const int ty = (S == SMAP || S == SUMAP) ? 1 : (S == MOMAP || S == MOUMAP) ? 2 : 0;
 };
 
 typedef std::vector<std::string> Words;
@@ -112,19 +147,20 @@ template<Shape S, bool OPEN, int AK> struct Runner {
 	typedef typename Cont<S, OPEN, AK>::type C;
 	typedef typename C::value_type V;
 	typedef typename C::allocator_type A;
-	typedef ShapeInfo<S> SI;
+	typedef ShapeInfo<S> SI; typedef Codec<SI::ty> CD;
 	std::unique_ptr<C> c[2]; int hashMode;
 	std::ostringstream out;
 
 	static C* create(int id, int hashMode) {
 		if constexpr (SI::isOrdered) return new C(typename C::key_compare(), AllocInfo<A>::make(id));
+		else if constexpr (S == SUMAP) return new C(0, SHash(hashMode), SEq(), AllocInfo<A>::make(id));
 		else if constexpr (SI::isMap) return new C(0, IHash(hashMode), std::equal_to<int>(), AllocInfo<A>::make(id));
 		else return new C(0, KHash(hashMode), KEq(), AllocInfo<A>::make(id));
 	}
-	static auto mk(int k, int v) { if constexpr (SI::isMap) return std::pair<int, int>(k, v); else return KI(k, v); }
-	static auto mkKey(int k) { if constexpr (SI::isMap) return k; else return KI(k, 0); }
-	template<class R> static std::string es(const R& r) { if constexpr (SI::isMap) return E2S(r.first, r.second); else return E2S(r.k, r.id); }
-	template<class R> static int keyOf(const R& r) { if constexpr (SI::isMap) return r.first; else return r.k; }
+	static auto mk(int k, int v) { if constexpr (SI::isMap) return std::pair<typename CD::key, typename CD::mapped>(CD::K(k), CD::M(v)); else return KI(k, v); }
+	static auto mkKey(int k) { if constexpr (SI::isMap) return CD::K(k); else return KI(k, 0); }
+	template<class R> static std::string es(const R& r) { if constexpr (SI::isMap) return E2S(CD::ki(r.first), CD::mi(r.second)); else return E2S(r.k, r.id); }
+	template<class R> static int keyOf(const R& r) { if constexpr (SI::isMap) return CD::ki(r.first); else return r.k; }
 	template<class It> std::string pos(const C& x, It it) {
 		if constexpr (SI::isOrdered) return std::to_string(std::distance(x.begin(), typename C::const_iterator(it)));
 		else { if (typename C::const_iterator(it) == x.end()) return "end";
@@ -132,7 +168,7 @@ template<Shape S, bool OPEN, int AK> struct Runner {
 			else return es(*it); } }
 	std::string dump(const C& x) {
 		std::vector<std::pair<int, int>> v;
-		for (auto it = x.begin(); it != x.end(); ++it) { if constexpr (SI::isMap) v.emplace_back((*it).first, (*it).second); else v.emplace_back((*it).k, (*it).id); }
+		for (auto it = x.begin(); it != x.end(); ++it) { if constexpr (SI::isMap) v.emplace_back(CD::ki((*it).first), CD::mi((*it).second)); else v.emplace_back((*it).k, (*it).id); }
 		if (!SI::isOrdered) std::sort(v.begin(), v.end());
 		std::string s = "[";
 		for (size_t i = 0; i < v.size(); ++i) s += (i ? "," : "") + E2S(v[i].first, v[i].second);
@@ -144,7 +180,15 @@ template<Shape S, bool OPEN, int AK> struct Runner {
 	}
 	template<class N> std::string nodeStr(const N& n) {
 		if (n.empty()) return "empty";
-		if constexpr (SI::isMap) return E2S(n.key(), n.mapped()); else return E2S(n.value().k, n.value().id);
+		if constexpr (SI::isMap) return E2S(CD::ki(n.key()), CD::mi(n.mapped())); else return E2S(n.value().k, n.value().id);
+	}
+	auto emplaceKV(C& x, int k, int v) {
+		if constexpr (SI::ty == 1) { std::string ks = SK(k), ms = SM(v); return x.emplace(ks.c_str(), ms.c_str()); }   // key and mapped built in place from const char*
+		else return x.emplace(k, v);
+	}
+	auto emplaceHintKV(C& x, typename C::const_iterator h, int k, int v) {
+		if constexpr (SI::ty == 1) { std::string ks = SK(k), ms = SM(v); return x.emplace_hint(h, ks.c_str(), ms.c_str()); }
+		else return x.emplace_hint(h, k, v);
 	}
 	template<class F> size_t eraseIf(C& x, F pred) {
 #ifdef IMPL_MOMO
@@ -158,26 +202,29 @@ template<Shape S, bool OPEN, int AK> struct Runner {
 		const std::string& o = w[0]; C& x = *c[I(w, 1) & 1];
 		if (o == "ins" || o == "emp") {
 			int k = I(w, 2), v = I(w, 3);
-			if constexpr (SI::isMulti) { auto it = (o == "ins") ? x.insert(mk(k, v)) : x.emplace(k, v); out << pos(x, it); }
-			else { auto r = (o == "ins") ? x.insert(mk(k, v)) : x.emplace(k, v); out << pos(x, r.first) << "," << r.second; }
+			if constexpr (SI::isMulti) { auto it = (o == "ins") ? x.insert(mk(k, v)) : emplaceKV(x, k, v); out << pos(x, it); }
+			else { auto r = (o == "ins") ? x.insert(mk(k, v)) : emplaceKV(x, k, v); out << pos(x, r.first) << "," << r.second; }
 		} else if (o == "insc") {   // insert(const value_type&)
+			if constexpr (CD::copyable) {
 			V val(mk(I(w, 2), I(w, 3)));
 			if constexpr (SI::isMulti) { auto it = x.insert(val); out << pos(x, it); }
-			else { auto r = x.insert(val); out << pos(x, r.first) << "," << r.second; }
+			else { auto r = x.insert(val); out << pos(x, r.first) << "," << r.second; } }
 		} else if (o == "insh" || o == "emph") {
 			int h = I(w, 2), k = I(w, 3), v = I(w, 4);
-			auto it = (o == "insh") ? x.insert(hintIt(x, h), mk(k, v)) : x.emplace_hint(hintIt(x, h), k, v);
+			auto it = (o == "insh") ? x.insert(hintIt(x, h), mk(k, v)) : emplaceHintKV(x, hintIt(x, h), k, v);
 			out << pos(x, it);
 		} else if (o == "empp") {   // piecewise emplace (maps) / emplace of a ready value (sets)
 			int k = I(w, 2), v = I(w, 3);
-			if constexpr (SI::isMap) {
+			if constexpr (SI::ty == 1) { std::string ks = SK(k), ms = SM(v);   // key from (const char*), mapped from (pointer, length)
+				auto r = x.emplace(std::piecewise_construct, std::forward_as_tuple(ks.c_str()), std::forward_as_tuple(ms.data(), ms.size())); out << pos(x, r.first) << "," << r.second;
+			} else if constexpr (SI::isMap) {
 				if constexpr (SI::isMulti) { auto it = x.emplace(std::piecewise_construct, std::forward_as_tuple(k), std::forward_as_tuple(v)); out << pos(x, it); }
 				else { auto r = x.emplace(std::piecewise_construct, std::forward_as_tuple(k), std::forward_as_tuple(v)); out << pos(x, r.first) << "," << r.second; }
 			} else {
 				if constexpr (SI::isMulti) { auto it = x.emplace(KI(k, v)); out << pos(x, it); }
 				else { auto r = x.emplace(KI(k, v)); out << pos(x, r.first) << "," << r.second; }
 			}
-		} else if (o == "insr" || o == "insl") {
+		} else if (o == "insr" || o == "insl") { if constexpr (CD::copyable) {
 			std::vector<V> vals; for (size_t i = 2; i + 1 < w.size(); i += 2) vals.push_back(V(mk(I(w, i), I(w, i + 1))));
 			if (o == "insr") x.insert(vals.begin(), vals.end());
 			else switch (vals.size()) {
@@ -186,7 +233,32 @@ template<Shape S, bool OPEN, int AK> struct Runner {
 				case 2: x.insert({ vals[0], vals[1] }); break;
 				case 3: x.insert({ vals[0], vals[1], vals[2] }); break;
 				default: x.insert({ vals[0], vals[1], vals[2], vals[3] }); break; }
-			out << "-";
+			out << "-"; }
+		} else if (o == "insm") {   // insert(first,last) through move iterators (works for move-only mapped values)
+			if constexpr (SI::isMap) { std::vector<std::pair<typename CD::key, typename CD::mapped>> vals; for (size_t i = 2; i + 1 < w.size(); i += 2) vals.push_back(mk(I(w, i), I(w, i + 1)));
+				x.insert(std::make_move_iterator(vals.begin()), std::make_move_iterator(vals.end())); out << "-"; }
+		} else if (o == "findh" || o == "cnth" || o == "hash" || o == "eqrh" || o == "lbh" || o == "ubh") {   // heterogeneous lookup with const char*
+			if constexpr (SI::ty == 1) {
+				std::string ks = SK(I(w, 2)); const C& cx = x;
+#if defined(IMPL_MOMO)
+				const char* hk = ks.c_str();
+#else
+				typename std::conditional<SI::isOrdered, const char*, std::string>::type hk = ks.c_str();   // std unordered: no heterogeneous lookup before C++20
+#endif
+				if (o == "findh") out << pos(x, cx.find(hk));
+				else if (o == "cnth") out << cx.count(hk);
+				else if (o == "hash") {
+#ifdef IMPL_MOMO
+					out << int(cx.contains(hk));
+#else
+					out << int(cx.count(hk) != 0);
+#endif
+				} else if (o == "eqrh") { auto r = cx.equal_range(hk);
+					if constexpr (SI::isOrdered) out << pos(x, r.first) << "," << pos(x, r.second);
+					else { out << "{"; for (auto it = r.first; it != r.second; ++it) out << es(*it); out << "}"; } }
+				else if (o == "lbh") { if constexpr (SI::isOrdered) out << pos(x, cx.lower_bound(hk)); }
+				else { if constexpr (SI::isOrdered) out << pos(x, cx.upper_bound(hk)); }
+			}
 		} else if (o == "find") { out << pos(x, x.find(mkKey(I(w, 2))));
 		} else if (o == "cnt") { out << x.count(mkKey(I(w, 2)));
 		} else if (o == "has") {
@@ -226,14 +298,21 @@ template<Shape S, bool OPEN, int AK> struct Runner {
 			for (; it != x.end(); ++it) { if constexpr (SI::isMulti) { if (es(*it) == E2S(k, v)) break; } else { if (keyOf(*it) == k) break; } }
 			if (it != x.end()) { try { x.erase(it, std::next(it)); out << "ok"; } catch (const std::invalid_argument&) { out << "inv"; } } else out << "none";
 		} else if (o == "at") {
-			if constexpr (SI::isMap && !SI::isMulti) { try { out << x.at(I(w, 2)); } catch (const std::out_of_range&) { out << "oor"; } }
-		} else if (o == "idx") { if constexpr (SI::isMap && !SI::isMulti) { int v = x[I(w, 2)]; out << v; }
-		} else if (o == "set") { if constexpr (SI::isMap && !SI::isMulti) { int k = I(w, 2); x[k] = I(w, 3); out << "-"; }
-		} else if (o == "setr") { if constexpr (SI::isMap && !SI::isMulti) { int k = I(w, 2); x[std::move(k)] = I(w, 3); out << "-"; }
-		} else if (o == "try") { if constexpr (SI::isMap && !SI::isMulti) { auto r = x.try_emplace(I(w, 2), I(w, 3)); out << pos(x, r.first) << "," << r.second; }
-		} else if (o == "tryh") { if constexpr (SI::isMap && !SI::isMulti) { int k = I(w, 3); auto it = x.try_emplace(hintIt(x, I(w, 2)), k, I(w, 4)); out << pos(x, it); }
-		} else if (o == "ioa") { if constexpr (SI::isMap && !SI::isMulti) { auto r = x.insert_or_assign(I(w, 2), I(w, 3)); out << pos(x, r.first) << "," << r.second; }
-		} else if (o == "ioah") { if constexpr (SI::isMap && !SI::isMulti) { int k = I(w, 3); auto it = x.insert_or_assign(hintIt(x, I(w, 2)), k, I(w, 4)); out << pos(x, it); }
+			if constexpr (SI::isMap && !SI::isMulti) { try { out << CD::mi(x.at(CD::K(I(w, 2)))); } catch (const std::out_of_range&) { out << "oor"; } }
+		} else if (o == "idx") { if constexpr (SI::isMap && !SI::isMulti) { const typename CD::key k = CD::K(I(w, 2)); int v = CD::mi(x[k]); out << v; }
+		} else if (o == "set") { if constexpr (SI::isMap && !SI::isMulti) { const typename CD::key k = CD::K(I(w, 2)); x[k] = CD::M(I(w, 3)); out << "-"; }
+		} else if (o == "setr") { if constexpr (SI::isMap && !SI::isMulti) { typename CD::key k = CD::K(I(w, 2)); x[std::move(k)] = CD::M(I(w, 3)); out << "-"; }
+		} else if (o == "try") { if constexpr (SI::isMap && !SI::isMulti) {   // the mapped argument is an rvalue object: it must be left untouched when nothing is inserted
+				typename CD::mapped arg = CD::M(I(w, 3)); const typename CD::key k = CD::K(I(w, 2));
+				auto r = x.try_emplace(k, std::move(arg)); out << pos(x, r.first) << "," << r.second;
+				if constexpr (SI::ty != 0) out << "," << int(CD::mi(arg) == I(w, 3)); }
+		} else if (o == "tryr") { if constexpr (SI::isMap && !SI::isMulti) {   // rvalue key + rvalue mapped: both untouched when nothing is inserted
+				typename CD::mapped arg = CD::M(I(w, 3)); typename CD::key k = CD::K(I(w, 2));
+				auto r = x.try_emplace(std::move(k), std::move(arg)); out << pos(x, r.first) << "," << r.second;
+				if constexpr (SI::ty != 0) out << "," << int(CD::mi(arg) == I(w, 3)) << int(CD::ki(k) == I(w, 2) || r.second); }
+		} else if (o == "tryh") { if constexpr (SI::isMap && !SI::isMulti) { const typename CD::key k = CD::K(I(w, 3)); auto it = x.try_emplace(hintIt(x, I(w, 2)), k, CD::M(I(w, 4))); out << pos(x, it); }
+		} else if (o == "ioa") { if constexpr (SI::isMap && !SI::isMulti) { const typename CD::key k = CD::K(I(w, 2)); auto r = x.insert_or_assign(k, CD::M(I(w, 3))); out << pos(x, r.first) << "," << r.second; }
+		} else if (o == "ioah") { if constexpr (SI::isMap && !SI::isMulti) { const typename CD::key k = CD::K(I(w, 3)); auto it = x.insert_or_assign(hintIt(x, I(w, 2)), k, CD::M(I(w, 4))); out << pos(x, it); }
 		} else if (o == "ext") { if constexpr (SI::hasNodes) { auto n = x.extract(mkKey(I(w, 2))); out << nodeStr(n); }
 		} else if (o == "exti") { if constexpr (SI::hasNodes) {
 				if constexpr (SI::isOrdered) { size_t p = size_t(I(w, 2)); if (p < x.size()) { auto n = x.extract(std::next(x.begin(), p)); out << nodeStr(n); } else out << "skip"; }
@@ -243,6 +322,29 @@ template<Shape S, bool OPEN, int AK> struct Runner {
 				if (o == "xinsh") { auto it = d.insert(hintIt(d, I(w, 4)), std::move(n)); out << pos(d, it); }
 				else if constexpr (SI::isMulti) { auto it = d.insert(std::move(n)); out << pos(d, it); }
 				else { auto r = d.insert(std::move(n)); out << pos(d, r.position) << "," << r.inserted << "," << nodeStr(r.node); } }
+		} else if (o == "xmut") { if constexpr (SI::hasNodes) {   // node round trip with the key changed through the handle: n = c.extract(k); n.key() = k2; d.insert(move(n))
+				C& d = *c[I(w, 2) & 1]; auto n = x.extract(mkKey(I(w, 3))); out << nodeStr(n) << ">";
+				if (!n.empty()) { if constexpr (SI::isMap) n.key() = CD::K(I(w, 4)); else n.value() = KI(I(w, 4), n.value().id); }
+				if constexpr (SI::isMulti) { auto it = d.insert(std::move(n)); out << pos(d, it); }
+				else { auto r = d.insert(std::move(n)); out << pos(d, r.position) << "," << r.inserted << "," << nodeStr(r.node); } }
+		} else if (o == "erloop") {   // the std idiom with a TRAVERSABLE iterator: for (it = begin(); it != end(); ) it = pred ? erase(it) : ++it
+			int m = std::max(1, I(w, 2)), r = I(w, 3); size_t n = 0, visited = 0;
+			for (auto it = x.begin(); it != x.end(); ) { ++visited; if (((keyOf(*it) % m) + m) % m == r) { it = x.erase(it); ++n; } else ++it; }
+			out << n << "/" << visited;
+		} else if (o == "ernx") {   // erase(traversable iterator at k[:v]) returns the successor: continuing from it visits exactly the elements that followed
+			int k = I(w, 2), v = I(w, 3); auto it = x.begin();
+			for (; it != x.end(); ++it) { if constexpr (SI::isMulti) { if (es(*it) == E2S(k, v)) break; } else { if (keyOf(*it) == k) break; } }
+			if (it == x.end()) out << "none";
+			else { std::vector<std::string> after, got; for (auto j = std::next(it); j != x.end(); ++j) after.push_back(es(*j));
+				auto r = x.erase(it); for (auto j = r; j != x.end(); ++j) got.push_back(es(*j));
+				std::sort(after.begin(), after.end()); std::sort(got.begin(), got.end()); out << (after == got ? "ok" : "BAD"); }
+		} else if (o == "mrgm" || o == "mrgt") { if constexpr (S == OSET || S == OMSET || S == OMAP || S == OMMAP) {
+				// merge between a unique and a multi container of the same element type: mrgm: x.merge(sibling built from args); mrgt: sibling.merge(x)
+				typedef typename Cont<(S == OSET ? OMSET : S == OMSET ? OSET : S == OMAP ? OMMAP : OMAP), false, AK>::type Sib;
+				Sib t(typename Sib::key_compare(), x.get_allocator());
+				for (size_t i = 2; i + 1 < w.size(); i += 2) t.insert(mk(I(w, i), I(w, i + 1)));
+				if (o == "mrgm") x.merge(t); else t.merge(x);
+				out << "[";  bool first = true; for (auto it = t.begin(); it != t.end(); ++it) { out << (first ? "" : ",") << es(*it); first = false; } out << "]"; }
 		} else if (o == "merge") { if constexpr (SI::hasNodes) { C& d = *c[I(w, 2) & 1]; if (&d != &x) x.merge(d); out << "-"; }
 		} else if (o == "clr") { x.clear(); out << "-";
 		} else if (o == "swap" || o == "swp2") {
@@ -253,18 +355,18 @@ template<Shape S, bool OPEN, int AK> struct Runner {
 			out << int(l == r) << int(l != r);
 			if constexpr (SI::isOrdered) out << int(l < r) << int(l <= r) << int(l > r) << int(l >= r);
 		} else if (o == "erif") { int m = std::max(1, I(w, 2)), r = I(w, 3); out << eraseIf(x, [m, r](int k) { return ((k % m) + m) % m == r; });
-		} else if (o == "cpy") { C& d = *c[I(w, 2) & 1]; if (&d != &x) x = d; out << "a" << AllocInfo<A>::id(x.get_allocator());
+		} else if (o == "cpy") { if constexpr (CD::copyable) { C& d = *c[I(w, 2) & 1]; if (&d != &x) x = d; out << "a" << AllocInfo<A>::id(x.get_allocator()); }
 		} else if (o == "mov") { int di = I(w, 2) & 1; C& d = *c[di]; if (&d != &x) { int idd = AllocInfo<A>::id(d.get_allocator()); x = std::move(d); c[di].reset(create(idd, hashMode)); }
 			out << "a" << AllocInfo<A>::id(c[I(w, 1) & 1]->get_allocator());
 		} else if (o == "cpc") {   // copy construction, then replace the target object
-			int ci = I(w, 1) & 1; C& d = *c[I(w, 2) & 1]; if (&d != &x) { std::unique_ptr<C> t(new C(d)); c[ci] = std::move(t); } out << "a" << AllocInfo<A>::id(c[ci]->get_allocator());
+			if constexpr (CD::copyable) { int ci = I(w, 1) & 1; C& d = *c[I(w, 2) & 1]; if (&d != &x) { std::unique_ptr<C> t(new C(d)); c[ci] = std::move(t); } out << "a" << AllocInfo<A>::id(c[ci]->get_allocator()); }
 		} else if (o == "mvc") {   // move construction
 			int ci = I(w, 1) & 1, di = I(w, 2) & 1; if (ci != di) { int idd = AllocInfo<A>::id(c[di]->get_allocator()); std::unique_ptr<C> t(new C(std::move(*c[di]))); c[ci] = std::move(t); c[di].reset(create(idd, hashMode)); }
 			out << "a" << AllocInfo<A>::id(c[ci]->get_allocator());
-		} else if (o == "asl") {   // operator=(initializer_list)
+		} else if (o == "asl") { if constexpr (CD::copyable) {  // operator=(initializer_list)
 			std::vector<V> vals; for (size_t i = 2; i + 1 < w.size(); i += 2) vals.push_back(V(mk(I(w, i), I(w, i + 1))));
 			switch (vals.size()) { case 0: x = std::initializer_list<V>{}; break; case 1: x = { vals[0] }; break; case 2: x = { vals[0], vals[1] }; break; default: x = { vals[0], vals[1], vals[2] }; break; }
-			out << "-";
+			out << "-"; }
 		} else if (o == "sz") { out << x.size() << "," << int(x.empty());
 		} else if (o == "dump") { out << dump(x);
 		} else out << "?";
@@ -279,6 +381,7 @@ template<Shape S, bool OPEN, int AK> struct Runner {
 		out << " | " << dump(*c[0]) << " | " << dump(*c[1]);
 		c[0].reset(); c[1].reset();
 		if (g_allocErr) { out << " ALLOCERR"; g_allocErr = false; }
+		if (g_moLive != 0) { out << " MOLEAK"; g_moLive = 0; }
 		if (!g_blocks.empty()) { out << " LEAK"; g_blocks.clear(); }
 		return out.str();
 	}
@@ -348,7 +451,7 @@ template<int AK> struct VecRunner {
 
 // ------------------------------------------------------------------ wrapper erase(first,last) with iterator kinds (momo only)
 #ifdef IMPL_MOMO
-template<Shape S, bool OPEN> static std::string runWE(int hm, const std::vector<std::pair<int, int>>& elems, int fpos, int ftrav, int lpos, int ltrav, bool orderOnly, const std::vector<std::pair<int, int>>& expectOrder) {
+template<Shape S, bool OPEN> static std::string runWE(int hm, const std::vector<std::pair<int, int>>& elems, int fpos, int ftrav, int lpos, int ltrav, bool orderOnly, const std::vector<std::pair<int, int>>& expectOrder, bool loopMode = false) {
 	typedef Runner<S, OPEN, 0> R; typedef typename R::C C;
 	std::unique_ptr<C> x(R::create(0, hm));
 	for (auto& e : elems) { if constexpr (S == UMMAP) x->emplace(e.first, e.second); else x->insert(R::mk(e.first, e.second)); }
@@ -364,6 +467,11 @@ template<Shape S, bool OPEN> static std::string runWE(int hm, const std::vector<
 		typename C::const_iterator it = static_cast<const C&>(*x).find(R::mkKey(k));
 		for (int i = s; i < p; ++i) ++it;      // walking inside the key keeps the iterator lookup-derived
 		return it; };
+	if (loopMode) {   // for (it = first; it != end(); ) it = erase(it);
+		typename C::const_iterator it = makeIt(fpos, ftrav); size_t n = 0;
+		while (it != x->end() && n < 100) { it = x->erase(it); ++n; }
+		R rr; out << "n=" << n << " rest=" << rr.dump(*x); return out.str();
+	}
 	typename C::const_iterator first = makeIt(fpos, ftrav), last = makeIt(lpos, ltrav);
 	try {
 		auto r = x->erase(first, last);
@@ -400,6 +508,42 @@ template<class M> static std::string runMMK(const Words& head) {   // mmk|mmko h
 }
 #endif
 
+// ------------------------------------------------------------------ vector: strong guarantee of push_back & co under a throwing copy
+#if GROUP == 2
+static long g_tcLive = 0, g_tcCopies = 0, g_tcLimit = -1;
+struct TC { int v; explicit TC(int x = 0) : v(x) { ++g_tcLive; }
+	TC(const TC& o) : v(o.v) { if (g_tcLimit >= 0 && ++g_tcCopies > g_tcLimit) throw std::runtime_error("copy"); ++g_tcLive; }   // no move constructor: relocation copies
+	TC& operator=(const TC& o) { v = o.v; return *this; } ~TC() { --g_tcLive; } };
+static std::string runPBS(int n, int mode, int extraCap) {
+#ifdef IMPL_MOMO
+	typedef momo::stdish::vector<TC> VT;
+#else
+	typedef std::vector<TC> VT;
+#endif
+	std::string res = "ok"; int tried = 0, threw = 0;
+	for (long limit = 0; limit < 3 * n + 8; ++limit) {
+		g_tcLimit = -1; g_tcCopies = 0;
+		{ VT v; if (extraCap > 0) v.reserve(size_t(n + extraCap - 1)); for (int i = 0; i < n; ++i) v.push_back(TC(i));
+			TC x(1000); bool ex = false; size_t capBefore = v.capacity();
+			g_tcCopies = 0; g_tcLimit = limit;
+			try { switch (mode) { case 0: v.push_back(x); break; case 1: v.emplace_back(x); break; case 2: v.insert(v.end(), x); break;
+				default: if (n > 0) v.push_back(v[0]); else v.push_back(x); break; } }
+			catch (const std::runtime_error&) { ex = true; }
+			g_tcLimit = -1; ++tried; threw += ex;
+			bool good = true;
+			if (ex) { good = (v.size() == size_t(n)) && (mode == 2 || v.capacity() == capBefore); }   // insert(end(), x): momo grows before the fallible copy, so capacity may change (contents intact) - noted in NOTES.md
+			else { good = (v.size() == size_t(n + 1)) && (v[size_t(n)].v == ((mode == 3 && n > 0) ? 0 : 1000)); }
+			for (int i = 0; i < n && good; ++i) good = (v[size_t(i)].v == i);
+			if (!good) { res = "BAD limit=" + std::to_string(limit) + (ex ? " threw" : " nothrow") + " size=" + std::to_string(v.size()); break; }
+			if (!ex) break;   // no copy failed any more: done
+		}
+		if (g_tcLive != 0) { res = "BAD live=" + std::to_string(g_tcLive) + " after limit=" + std::to_string(limit); g_tcLive = 0; break; }
+	}
+	if (res == "ok" && g_tcLive != 0) { res = "BAD live=" + std::to_string(g_tcLive); g_tcLive = 0; }
+	return res + (threw > 0 || n >= 0 ? "" : "");
+}
+#endif
+
 // ------------------------------------------------------------------ dispatch
 template<Shape S, bool OPEN> static std::string runAssoc(int, const std::vector<Words>& ops, int idA, int idB, int hm) {
 	Runner<S, OPEN, 0> r; return r.run(ops, idA, idB, hm);
@@ -432,24 +576,25 @@ int main()
 		if (segs.empty()) { puts("?"); continue; }
 		Words head = segs[0]; std::string res = "nokind";
 #ifdef IMPL_MOMO
-		if (head[0] == "we" || head[0] == "ord") {   // we|ord kind hm n k:v ... [/ fpos ftrav lpos ltrav]
+		if (head[0] == "we" || head[0] == "ord" || head[0] == "wl") {   // we|ord kind hm n k:v ... [/ fpos ftrav lpos ltrav]
 			std::string kind = head[1]; int hm = I(head, 2); std::vector<std::pair<int, int>> el; size_t i = 3;
 			for (; i < head.size() && head[i] != "/"; ++i) { int k = 0, v = 0; sscanf(head[i].c_str(), "%d:%d", &k, &v); el.emplace_back(k, v); }
 			int a = I(head, i + 1), b = I(head, i + 2), c = I(head, i + 3), d = I(head, i + 4); bool oo = (head[0] == "ord");
 			std::vector<std::pair<int, int>> eo; for (size_t j = i + 6; j < head.size(); ++j) { int k = 0, v = 0; sscanf(head[j].c_str(), "%d:%d", &k, &v); eo.emplace_back(k, v); }
 #if GROUP == 1
-			if (kind == "uset") res = runWE<USET, false>(hm, el, a, b, c, d, oo, eo);
-			else if (kind == "uset_o") res = runWE<USET, true>(hm, el, a, b, c, d, oo, eo);
-			else if (kind == "umap") res = runWE<UMAP, false>(hm, el, a, b, c, d, oo, eo);
-			else if (kind == "umap_o") res = runWE<UMAP, true>(hm, el, a, b, c, d, oo, eo);
+			if (kind == "uset") res = runWE<USET, false>(hm, el, a, b, c, d, oo, eo, head[0] == "wl");
+			else if (kind == "uset_o") res = runWE<USET, true>(hm, el, a, b, c, d, oo, eo, head[0] == "wl");
+			else if (kind == "umap") res = runWE<UMAP, false>(hm, el, a, b, c, d, oo, eo, head[0] == "wl");
+			else if (kind == "umap_o") res = runWE<UMAP, true>(hm, el, a, b, c, d, oo, eo, head[0] == "wl");
 #elif GROUP == 2
-			if (kind == "ummap") res = runWE<UMMAP, false>(hm, el, a, b, c, d, oo, eo);
-			else if (kind == "ummap_o") res = runWE<UMMAP, true>(hm, el, a, b, c, d, oo, eo);
+			if (kind == "ummap") res = runWE<UMMAP, false>(hm, el, a, b, c, d, oo, eo, head[0] == "wl");
+			else if (kind == "ummap_o") res = runWE<UMMAP, true>(hm, el, a, b, c, d, oo, eo, head[0] == "wl");
 #endif
 			puts(res.c_str()); continue;
 		}
 #endif
 #if GROUP == 2
+		if (head[0] == "pbs") { puts(runPBS(I(head, 1), I(head, 2), I(head, 3)).c_str()); continue; }
 		if (head[0] == "mmk") { puts(runMMK<MMK>(head).c_str()); continue; }
 		if (head[0] == "mmko") { puts(runMMK<MMKO>(head).c_str()); continue; }
 #endif
@@ -467,6 +612,11 @@ int main()
 #elif GROUP == 3
 		if (kind == "set") res = runAssoc<OSET, false>(0, ops, idA, idB, hm);
 		else if (kind == "mset") res = runAssocA<OMSET, false>(ak, ops, idA, idB, hm);
+#elif GROUP == 5
+		if (kind == "smap") res = runAssoc<SMAP, false>(0, ops, idA, idB, hm);
+		else if (kind == "sumap") res = runAssoc<SUMAP, false>(0, ops, idA, idB, hm);
+		else if (kind == "momap") res = runAssoc<MOMAP, false>(0, ops, idA, idB, hm);
+		else if (kind == "moumap") res = runAssoc<MOUMAP, false>(0, ops, idA, idB, hm);
 #elif GROUP == 4
 		if (kind == "map") res = runAssocA<OMAP, false>(ak, ops, idA, idB, hm);
 		else if (kind == "mmap") res = runAssoc<OMMAP, false>(0, ops, idA, idB, hm);
